@@ -156,7 +156,9 @@ class Runner:
         ok = True
         if self.cls["env"] == "G1Locomotion":
             rng_ = [np.asarray(env.lin_vel_x_range), np.asarray(env.lin_vel_y_range), np.asarray(env.ang_vel_yaw_range)]
-            for j in range(3):
+            # the all-zero "stand still" command is a documented outcome of sample_command (zero_command_probability)
+            zero_ok = bool(np.all(cmd == 0.0)) and float(np.asarray(env.zero_command_probability)) > 0.0
+            for j in range(0 if not zero_ok else 3, 3):
                 if not (rng_[j][0] - 1e-6 <= cmd[j] <= rng_[j][1] + 1e-6):
                     res.fail("C20", "command_in_range", "command_component_outside_range", where=where, component=j, got=float(cmd[j]), range=rng_[j].tolist())
                     ok = False
